@@ -190,6 +190,10 @@ class ExprMixin:
             it = self.ev(g.iter, env, frame)
             self.iter_ops(it, g.iter, env, frame)
             el = self.iter_elem(it, g.iter, env, frame)
+            from .absint import key_source
+            ks = key_source(g.iter, it)
+            if ks and not el.is_bottom and el.kof is None:
+                el = replace(el, kof=ks)
             ne = ne and it.nonempty
             t = max(t, 1 if it.taint else 0)
             if it.taint:
@@ -278,7 +282,7 @@ class ExprMixin:
 
     def _truthy_part(self, v):
         w = remove_tags(v, {"none"})
-        return replace(w, nonempty=True) if not w.is_bottom and w.types & {"list", "dict", "tuple", "set", "str"} else w
+        return replace(w, nonempty=True) if not w.is_bottom and w.types & {"list", "dict", "tuple", "set", "str", "json"} else w
 
     def _falsy_part(self, v):
         if v.only("bool"):
@@ -667,11 +671,26 @@ class ExprMixin:
     def e_Subscript(self, node, env, frame):
         base = self.ev(node.value, env, frame)
         k = self.ev(node.slice, env, frame)
-        return self.subscript(base, k, node, env, frame)
+        known = False
+        if k.kof is not None and k.kof == norm(node.value):
+            known = True
+        if isinstance(node.value, ast.Name):
+            t = node.value.id
+            if k.kof == t:
+                known = True
+            elif k.has_const and (t, k.const_value()) in (env.get("$keys") or ()):
+                known = True
+            elif (norm(node.slice), t) in (env.get("$mem") or ()):
+                known = True
+        return self.subscript(base, k, node, env, frame, key_known=known)
 
-    def subscript(self, base: AVal, k: AVal, node, env, frame) -> AVal:
+    def subscript(self, base: AVal, k: AVal, node, env, frame, key_known=False) -> AVal:
         if base.is_bottom:
             return BOTTOM
+        if key_known:
+            q = _Quiet(self)
+            with q:
+                return self.subscript(base, k, node, env, frame, key_known=False)
         is_slice = isinstance(getattr(node, "slice", None), ast.Slice)
         kc = k.const_value(None) if k.has_const else None
         if base.is_json and base.taint == 2:
@@ -923,12 +942,23 @@ class ExprMixin:
             with quiet:
                 tags = self.type_tags(test.args[1], env, frame)
             if tags is None or not isinstance(tgt, ast.Name) or tgt.id not in env:
+                if branch and isinstance(tgt, ast.Call) and isinstance(tgt.func, ast.Attribute) and tgt.func.attr == "get" and isinstance(tgt.func.value, ast.Name) and len(tgt.args) == 1 and isinstance(tgt.args[0], ast.Constant):
+                    e = dict(env)
+                    e["$keys"] = (e.get("$keys") or frozenset()) | {(tgt.func.value.id, tgt.args[0].value)}
+                    return e
                 return env
             nv = self.narrow_value(env[tgt.id], tags, branch)
             if nv.is_bottom:
                 return None
             e = dict(env); e[tgt.id] = nv
             return e
+        if isinstance(test, ast.Call) and isinstance(test.func, ast.Name) and test.func.id == "isinstance" and len(test.args) == 2 and branch:
+            a = test.args[0]
+            # isinstance(X.get("k"), T) holds (T not NoneType): the key is present
+            if isinstance(a, ast.Call) and isinstance(a.func, ast.Attribute) and a.func.attr == "get" and isinstance(a.func.value, ast.Name) and len(a.args) == 1 and isinstance(a.args[0], ast.Constant):
+                e = dict(env)
+                e["$keys"] = (e.get("$keys") or frozenset()) | {(a.func.value.id, a.args[0].value)}
+                return e
         if isinstance(test, ast.Compare) and len(test.ops) == 1:
             op = test.ops[0]
             l, r = test.left, test.comparators[0]
@@ -978,8 +1008,14 @@ class ExprMixin:
                     if v.has_const and v.const_value() not in consts:
                         return None
                 return env
-            if isinstance(op, (ast.In, ast.NotIn)) and isinstance(l, ast.Constant) and isinstance(l.value, str) and isinstance(r, ast.Name) and r.id in env:
-                # "key" in mapping  /  "sub" in str : on an input node this succeeds only for str/list/dict
+            if isinstance(op, (ast.In, ast.NotIn)) and isinstance(r, ast.Name) and isinstance(l, (ast.Constant, ast.Name, ast.Subscript, ast.Attribute)):
+                positive = isinstance(op, ast.In) == branch
+                if positive:
+                    e = dict(env)
+                    e["$mem"] = (e.get("$mem") or frozenset()) | {(norm(l), r.id)}
+                    if isinstance(l, ast.Constant) and isinstance(l.value, (str, int)):
+                        e["$keys"] = (e.get("$keys") or frozenset()) | {(r.id, l.value)}
+                    return e
                 return env
         if isinstance(test, ast.Call) and isinstance(test.func, ast.Name) and test.func.id == "hasattr":
             return env
